@@ -134,3 +134,35 @@ def run_c01_default_generated(tier, seed):
         failures.append(dict(name="C01 identifier changes when a configuration whose defaulted parameter holds a generated field is sealed",
                              case="default-config:generated-field:seal", before=before, after=after))
     return dict(tool="cpython: real identifiers before / after seal()", bound="1 configuration", cases=1, distinct=1, failures=failures)
+
+
+def run_c15_stale_validated(tier, seed):
+    """C15: a configuration validated during a *rejected* submission keeps its `_validated` flag (it is not sealed, so it can
+    still be modified); made incomplete afterwards, it is not validated again by the next submission, which is accepted when
+    the missing required parameter is one the identifier ignores."""
+    from experimaestro import experiment
+    from experimaestro.scheduler.workspace import RunMode
+    from bounded.zoo_ws import VfA, VfB, VfBad, VfT1, VfT2
+    failures = []
+    tmp = Path(tempfile.mkdtemp(prefix="verif-c15-"))
+    try:
+        a = VfA(b=VfB(x=1))
+        with experiment(tmp, "vf", port=-1, run_mode=RunMode.DRY_RUN):
+            first = None
+            try:
+                VfT1(a=a, bad=VfBad()).submit()
+                first = "accepted"
+            except Exception as e:  # noqa
+                first = type(e).__name__
+            if first == "accepted":
+                failures.append(dict(name="C15 a task with a missing required parameter is accepted at submission", case="stale-validated:first", what="bad.y missing"))
+            a.b = VfB()          # a.b.x (required) is now missing
+            try:
+                VfT2(a=a).submit()
+                failures.append(dict(name="C15 a configuration made incomplete after a rejected submission is accepted by the next submission",
+                                     case="stale-validated:second", first_submission=first))
+            except Exception:  # noqa
+                pass
+    finally:
+        shutil.rmtree(tmp, ignore_errors=True)
+    return dict(tool="cpython: two real submissions (DRY_RUN) of tasks sharing a configuration", bound="1 history", cases=2, distinct=2, failures=failures)
